@@ -228,3 +228,150 @@ class Gen:
                 S.settle()
         S.settle()
         return S
+
+
+# ------------------------------------------------------------------------------------------------
+# directed scenarios: multi-step histories that random generation reaches only rarely
+
+def _scan(S, a):
+    t, d = game_msg("ScanNetwork", source_host=ip("192.168.2.2"), target_network={"ip": "192.168.1.0", "mask": 24})
+    S.send(a, t, d)
+
+
+def _join(S, a, name, role):
+    S.send(a, nsgenv.join(name, role), {"kind": "join", "name": name, "role": role})
+
+
+def _leave(S, a, kind):
+    if kind == "eof":
+        S.eof(a)
+    elif kind == "readerr":
+        S.read_error(a)
+    elif kind == "quit":
+        S.send(a, msg("QuitGame"), {"kind": "quit"})
+    else:
+        S.send(a, b"\xff\xfe\x00\xfa", {"kind": "undecodable"})
+
+
+def _reset(S, a, tr):
+    S.send(a, msg("ResetGame", request_trajectory=str(tr)), {"kind": "reset", "traj": tr})
+
+
+def directed_config(rng, required, max_steps, goal_at_once=False, defender=False):
+    cfg, draw = gen_config(rng, required=required, defender=defender, max_steps=max_steps)
+    A = cfg["coordinator"]["agents"]["Attacker"]
+    g = copy.deepcopy(nsgenv.EMPTY_PART)
+    if goal_at_once:
+        g["known_networks"] = ["192.168.1.0/24"]          # known from the start: Success at the first action
+    else:
+        g["known_data"] = {"213.47.23.195": [["User1", "DataFromServer1"]]}
+    A["goal"] = dict(g, description="goal", is_any_part_of_goal_random=False)
+    cfg["coordinator"]["agents"]["Defender"]["goal"]["known_data"] = {"1.1.1.1": [["x", "y"]]}
+    return cfg, draw
+
+
+def directed(rng, k):
+    """Run the k-th directed scenario; returns (Session, cfg, draw)."""
+    kinds = ["eof", "readerr", "quit", "undecodable"]
+    k = k % 7
+    if k == 0:
+        # a successful attacker waits; the other agent leaves; a new defender joins the finished game and ends
+        cfg, draw = directed_config(rng, 2, 5, goal_at_once=True)
+        S = CR.Session(cfg, draw=draw)
+        a, b, c = ("10.2.0.1", 1), ("10.2.0.2", 2), ("10.2.0.3", 3)
+        S.connect(a); S.connect(b); S.settle()
+        _join(S, a, "a", "Attacker"); _join(S, b, "b", rng.choice(["Attacker", "Defender"])); S.settle()
+        _scan(S, a); S.settle()
+        _leave(S, b, rng.choice(kinds)); S.settle()
+        S.connect(c); S.settle()
+        _join(S, c, "c", "Defender"); S.settle()
+        t, d = game_msg("FindData", source_host=ip("192.168.2.2"), target_host=ip("192.168.2.2"))
+        S.send(c, t, d); S.settle()
+        _scan(S, a); S.settle()
+        _reset(S, a, True); _reset(S, c, False); S.settle()
+    elif k == 1:
+        # finals delivered, then another agent leaves before the reset, then refused probes
+        cfg, draw = directed_config(rng, 2, 2)
+        S = CR.Session(cfg, draw=draw)
+        a, b = ("10.2.1.1", 1), ("10.2.1.2", 2)
+        S.connect(a); S.connect(b); S.settle()
+        _join(S, a, "a", "Attacker"); _join(S, b, "b", rng.choice(["Attacker", "Defender"])); S.settle()
+        for _ in range(2):
+            _scan(S, a); S.settle()
+        t, d = game_msg("FindData", source_host=ip("192.168.2.2"), target_host=ip("192.168.2.2"))
+        for _ in range(2):
+            S.send(b, t, d); S.settle()
+        _scan(S, a); S.settle()
+        _leave(S, b, rng.choice(kinds)); S.settle()
+        _scan(S, a); S.settle()
+        _reset(S, a, True); S.settle()
+    elif k == 2:
+        # one agent parked at the end barrier, the other (still playing) leaves
+        cfg, draw = directed_config(rng, 2, 2)
+        S = CR.Session(cfg, draw=draw)
+        a, b = ("10.2.2.1", 1), ("10.2.2.2", 2)
+        S.connect(a); S.connect(b); S.settle()
+        _join(S, a, "a", "Attacker"); _join(S, b, "b", "Attacker"); S.settle()
+        _scan(S, a); S.settle(); _scan(S, b); S.settle(); _scan(S, a); S.settle()
+        _leave(S, b, rng.choice(kinds)); S.settle()
+        _scan(S, a); S.settle()
+    elif k == 3:
+        # three agents: reset requests and a departure while the others wait for the reset
+        cfg, draw = directed_config(rng, 3, 1)
+        S = CR.Session(cfg, draw=draw)
+        a, b, c = ("10.2.3.1", 1), ("10.2.3.2", 2), ("10.2.3.3", 3)
+        for x in (a, b, c):
+            S.connect(x)
+        S.settle()
+        _join(S, a, "a", "Attacker"); _join(S, b, "b", "Attacker"); _join(S, c, "c", "Attacker"); S.settle()
+        _scan(S, a); _scan(S, b); S.settle()
+        _reset(S, a, False); S.settle()
+        who = rng.choice([b, c])
+        _leave(S, who, rng.choice(kinds)); S.settle()
+        other = c if who == b else b
+        _scan(S, other); S.settle()
+        _reset(S, other, True); S.settle()
+    elif k == 4:
+        # bursts: a join arrives together with the last action / the last reset request
+        cfg, draw = directed_config(rng, 2, 2)
+        S = CR.Session(cfg, draw=draw)
+        a, b, c = ("10.2.4.1", 1), ("10.2.4.2", 2), ("10.2.4.3", 3)
+        S.connect(a); S.connect(b); S.settle()
+        _join(S, a, "a", "Attacker"); _join(S, b, "b", "Attacker"); S.settle()
+        _scan(S, a); S.settle()
+        S.eof(b); S.settle()
+        S.connect(c); S.settle()
+        _scan(S, a); _join(S, c, "c", "Attacker"); S.settle()
+        _scan(S, c); S.settle(); _scan(S, c); S.settle()
+        _reset(S, a, False); S.run_iters(rng.randrange(0, 3)); _reset(S, c, True); S.settle()
+    elif k == 5:
+        # two episodes: reset without / with the trajectory request, with the global defender on
+        cfg, draw = directed_config(rng, 1, 3, defender=True)
+        S = CR.Session(cfg, draw=0.999)
+        a = ("10.2.5.1", 1)
+        S.connect(a); S.settle()
+        _join(S, a, "a", "Attacker"); S.settle()
+        _scan(S, a); S.settle(); _scan(S, a); S.settle()
+        _reset(S, a, False); S.settle()
+        _scan(S, a); S.settle()
+        _reset(S, a, True); S.settle()
+        _reset(S, a, True); S.settle()
+        draw = 0.999
+    else:
+        # connection slots: over-limit connections, quits and reconnects
+        cfg, draw = directed_config(rng, 1, 2)
+        S = CR.Session(cfg, draw=draw)
+        addrs = [("10.2.6.%d" % i, i) for i in range(1, 7)]
+        S.connect(addrs[0]); S.connect(addrs[1]); S.settle()
+        _join(S, addrs[0], "a", "Attacker"); S.settle()
+        _leave(S, addrs[0], "quit"); S.settle()
+        S.connect(addrs[2]); S.settle()
+        _join(S, addrs[2], "b", "Attacker"); S.settle()
+        S.write_fail(addrs[2]); _scan(S, addrs[2]); S.settle()
+        S.connect(addrs[3]); S.settle()
+        _join(S, addrs[3], "c", "Attacker"); S.settle()
+        _leave(S, addrs[3], rng.choice(kinds)); S.settle()
+        S.connect(addrs[4]); S.connect(addrs[5]); S.settle()
+        _join(S, addrs[4], "d", "Defender"); S.settle()
+    S.settle()
+    return S, cfg, draw
